@@ -1,3 +1,3 @@
 SPECIFICATION Spec
-CONSTANT MaxCalls = 3
+CONSTANT MaxCalls = 2
 CHECK_DEADLOCK FALSE
